@@ -17,8 +17,9 @@ package tlb
 //     the reference dictionary parser (any valid label form accepted, mapping and value bits must be exact).
 //   - TestVerifStandin_C04_RealData: every transaction, message and fully present account, and InMsg / OutMsg records
 //     (quick: ~100 evenly spaced per block, thorough: all) of the five blocks in testdata: decode -> encode -> same
-//     cell hash as the source cell. Transactions / InMsg / OutMsg are encoded twice: through the public API, and
-//     through a copy of the value whose Transaction structs lack the unexported cache fields (sub-tests *_fields).
+//     cell hash as the source cell. Transactions / InMsg / OutMsg are encoded through the public API; only if that
+//     panics (as it did before the unexported-field fix) they are encoded again through a copy of the value whose
+//     Transaction structs lack the unexported cache fields (counters *_fields), so that the layout is still checked.
 //
 // Allow-list for real data (a different hash is tolerated ONLY in this case, everything else fails): the source and
 // the re-encoded tree are identical except that dictionary edges carry the same label in a different valid form
@@ -218,16 +219,19 @@ type c04CCVal struct {
 }
 
 func c04RandGrams(rng *rand.Rand) uint64 {
-	// below 2^63: larger values hit the known Grams defect (reported by C03), here the layout is what is checked
-	switch rng.Intn(6) {
+	switch rng.Intn(8) {
 	case 0:
 		return 0
 	case 1:
 		return uint64(rng.Intn(256))
 	case 2:
 		return 1<<63 - 1
+	case 3:
+		return 1 << 63
+	case 4:
+		return 1<<64 - 1
 	}
-	return rng.Uint64() >> (1 + uint(rng.Intn(62)))
+	return rng.Uint64() >> uint(rng.Intn(64))
 }
 
 func c04RandCC(rng *rand.Rand) (CurrencyCollection, c04CCVal) {
@@ -524,9 +528,6 @@ func TestVerifStandin_C04_BitExact(t *testing.T) {
 					cause = "rc_fixed_int_bits"
 				}
 				for _, v := range g.leafValues(lt) {
-					if lt == c03GramsType && v.Uint() >= 1<<63 {
-						continue // known defect, reported by C03 (rc_grams_ge_2pow63)
-					}
 					exp, ok := c04Leaf(v)
 					if !ok {
 						t.Fatalf("no oracle for %v", lt)
@@ -921,7 +922,7 @@ type c04Real struct {
 }
 
 // check re-encodes v (decoded from src) and compares hashes. kind names the record kind in the counters.
-func (r *c04Real) check(kind string, v any, src *boc.Cell, srcHash string, where string) {
+func (r *c04Real) check(kind string, v any, src *boc.Cell, srcHash string, where string) (panicked bool) {
 	r.stat.add(kind + "|" + srcHash)
 	r.counts[kind+".total"]++
 	c := boc.NewCell()
@@ -933,17 +934,17 @@ func (r *c04Real) check(kind string, v any, src *boc.Cell, srcHash string, where
 			cause = "rc_marshal_panics_on_unexported_struct_field"
 		}
 		r.fails.add(cause, "%s %s (source hash %s): Marshal panics: %s", kind, where, srcHash, p)
-		return
+		return true
 	}
 	if err != nil {
 		r.counts[kind+".error"]++
 		r.fails.add("rc_reencode_error/"+kind, "%s %s (source hash %s): Marshal error: %v", kind, where, srcHash, err)
-		return
+		return false
 	}
 	h := vhHash(c)
 	if h == srcHash {
 		r.counts[kind+".equal"]++
-		return
+		return false
 	}
 	if src != nil {
 		if explained, srcCanonical := c04ExplainedByLabels(src, c, r.maxKey); explained {
@@ -955,12 +956,12 @@ func (r *c04Real) check(kind string, v any, src *boc.Cell, srcHash string, where
 			if p := vhSafe(func() { derr = Unmarshal(c, fresh.Interface()) }); p != "" || derr != nil {
 				r.counts[kind+".differs_label_form_only_but_reencoding_not_decodable"]++
 				r.fails.add("rc_reencoded_tree_not_decodable/"+kind, "%s %s (source hash %s): the re-encoded tree differs from the source only in label form but does not decode: %v %v", kind, where, srcHash, p, derr)
-				return
+				return false
 			}
 			if d := vhDiff(v, fresh.Elem().Interface()); d != "" {
 				r.counts[kind+".differs_label_form_only_but_decodes_to_another_value"]++
 				r.fails.add("rc_reencoded_tree_decodes_to_another_value/"+kind, "%s %s (source hash %s): %s", kind, where, srcHash, d)
-				return
+				return false
 			}
 			if srcCanonical {
 				// informational: the chain uses the shortest label form, the library another valid one
@@ -968,7 +969,7 @@ func (r *c04Real) check(kind string, v any, src *boc.Cell, srcHash string, where
 			} else {
 				r.counts[kind+".differs_label_form_only(tolerated,source_form_not_shortest)"]++
 			}
-			return
+			return false
 		}
 	}
 	r.counts[kind+".differs_unexplained"]++
@@ -977,6 +978,7 @@ func (r *c04Real) check(kind string, v any, src *boc.Cell, srcHash string, where
 		d = c04FirstDiff(src, c, "root")
 	}
 	r.fails.add("rc_reencoded_hash_differs/"+kind, "%s %s: source hash %s, re-encoded hash %s\n      %s", kind, where, srcHash, h, d)
+	return false
 }
 
 func c04HasExotic(c *boc.Cell, depth int) bool {
@@ -1080,9 +1082,10 @@ func TestVerifStandin_C04_RealData(t *testing.T) {
 					continue
 				}
 				// through the public API
-				r.check("transaction", tx, src, h, where)
-				// the same record through a copy without the unexported cache fields
-				r.check("transaction_fields", c04ShadowValue(vhAddressable(tx)).Interface(), src, h, where)
+				if r.check("transaction", tx, src, h, where) {
+					// the public API panicked: still check the field layout through a copy without the unexported cache fields
+					r.check("transaction_fields", c04ShadowValue(vhAddressable(tx)).Interface(), src, h, where)
+				}
 				if tx.Msgs.InMsg.Exists {
 					checkMsg(&tx.Msgs.InMsg.Value.Value, where+" in_msg")
 				}
@@ -1114,8 +1117,9 @@ func TestVerifStandin_C04_RealData(t *testing.T) {
 				r.fails.add("rc_descr_decode", "%s: %v", where, err)
 				continue
 			}
-			r.check("in_msg", v, &src, vhHash(&src), where)
-			r.check("in_msg_fields", c04ShadowValue(vhAddressable(v)).Interface(), &src, vhHash(&src), where)
+			if r.check("in_msg", v, &src, vhHash(&src), where) {
+				r.check("in_msg_fields", c04ShadowValue(vhAddressable(v)).Interface(), &src, vhHash(&src), where)
+			}
 		}
 		var outDescr HashmapAugE[Bits256, Any, CurrencyCollection]
 		outCell := block.Extra.OutMsgDescrCell
@@ -1139,8 +1143,9 @@ func TestVerifStandin_C04_RealData(t *testing.T) {
 				r.fails.add("rc_descr_decode", "%s: %v", where, err)
 				continue
 			}
-			r.check("out_msg", v, &src, vhHash(&src), where)
-			r.check("out_msg_fields", c04ShadowValue(vhAddressable(v)).Interface(), &src, vhHash(&src), where)
+			if r.check("out_msg", v, &src, vhHash(&src), where) {
+				r.check("out_msg_fields", c04ShadowValue(vhAddressable(v)).Interface(), &src, vhHash(&src), where)
+			}
 		}
 		// accounts of the state update (only those fully present, i.e. without pruned branches)
 		var upd MerkleUpdate[c04RawShardState]
